@@ -2,15 +2,18 @@ import Solvor.Common.Proto
 import Solvor.Sched.Model
 /-! Sched: line-protocol handler.
 
-request `["js", jobs, rule, scheds]`
+request `["js", jobs, rule, scheds, draws]`
   jobs   : list of jobs, each a list of `[machine, duration]`
   rule   : 0 fifo | 1 spt | 2 lpt | 3 mwkr | -1 (no deterministic mirror requested)
   scheds : list of `[entries, obj]`, entries = `[job, op, start, end]` in dict insertion order,
            obj a rational `[num, den]`
-reply `[ruleSchedule | null, [[clauses, refine, makespan] …]]`
+  draws  : `null`, or the machines drawn by `rng.randrange(n_machines)` in the local search
+reply `[ruleSchedule | null, [[clauses, refine, makespan] …], [lsSchedule, lsObjective] | null]`
   ruleSchedule : the mirror `dispatchRule` (entries in placement order)
   clauses      : the seven conjuncts of the verified checker `chkSchedule`
   refine       : `isDispatchOf` (the schedule is the abstract machine's for its own pick order)
+  lsSchedule   : the mirror `localSearch` started from the rule mirror (rule ≥ 0) or from the first
+                 entry of `scheds` (the implementation's dispatch schedule, rule = -1)
 
 request `["vrp", n, req, dist, demand, twStart, twEnd, service, cap, weights, tol, rel, xy, states, steps]`
   req/demand/twStart/twEnd/service : per customer index 0..n (0 = depot); twEnd / cap entries `null` = +∞
@@ -51,9 +54,9 @@ private def ruleOf : Int → Option Rule
 private def entriesVal (S : List Entry) : Val :=
   Val.arr (S.map fun e => Val.ofInts [e.job, e.op, e.start, e.fin])
 
-private def handleJs (jobs rule scheds : Val) : String :=
-  match parseJobs jobs, rule.toInt?, scheds.toArr? with
-  | some jobs, some rule, some scheds =>
+private def handleJs (jobs rule scheds draws : Val) : String :=
+  match parseJobs jobs, rule.toInt?, scheds.toArr?, Val.toOpt? Val.toNats? draws with
+  | some jobs, some rule, some scheds, some draws =>
     let rs := (ruleOf rule).map fun r => dispatchRule r jobs
     let outs := scheds.map fun sv =>
       match sv with
@@ -66,8 +69,18 @@ private def handleJs (jobs rule scheds : Val) : String :=
           Val.arr [Val.arr (cl.map Val.bool), Val.bool (isDispatchOf jobs S), Val.int (makespan S)]
         | _, _ => Val.str "bad schedule"
       | _ => Val.str "bad schedule"
-    (Val.arr [Val.ofOpt entriesVal rs, Val.arr outs]).render
-  | _, _, _ => err "bad js arguments"
+    let init : Option (List Entry) := match rs with
+      | some r => some r
+      | none => match scheds with
+        | Val.arr [ev, _] :: _ => parseEntries ev
+        | _ => none
+    let ls : Option Val := match draws, init with
+      | some ds, some i0 =>
+        let r := localSearch jobs i0 ds
+        some (Val.arr [entriesVal r.sched, Val.int r.obj])
+      | _, _ => none
+    (Val.arr [Val.ofOpt entriesVal rs, Val.arr outs, Val.ofOpt id ls]).render
+  | _, _, _, _ => err "bad js arguments"
 
 private def optRats (v : Val) : Option (List (Option Rat)) := do
   (← v.toArr?).mapM (Val.toOpt? Val.toRat?)
@@ -127,7 +140,7 @@ private def handleVrp (args : List Val) : String :=
 
 def handle (line : String) : String :=
   match request line with
-  | some ("js", [jobs, rule, scheds]) => handleJs jobs rule scheds
+  | some ("js", [jobs, rule, scheds, draws]) => handleJs jobs rule scheds draws
   | some ("vrp", args) => handleVrp args
   | _ => err "bad request"
 
